@@ -14,6 +14,9 @@ pub struct Dict {
     pub recipe: Vec<String>,
     /// unit names, symbols and aliases of units.toml
     pub units: Vec<String>,
+    /// string literals anywhere under src/ that look like names of environment variables
+    /// (`[A-Z][A-Z0-9_]{2,}`), plus the usual ambient ones: whether they are set is not input
+    pub env: Vec<String>,
 }
 
 static DICT: OnceLock<Dict> = OnceLock::new();
@@ -177,5 +180,35 @@ pub fn build(repo: &str) -> Dict {
     }
     units.sort();
     units.dedup();
-    Dict { aisle, recipe, units }
+    let mut env: Vec<String> = ["NO_COLOR", "CLICOLOR", "CLICOLOR_FORCE", "TERM", "COLORTERM", "LANG", "LC_ALL", "LC_NUMERIC", "TZ", "COLUMNS", "RUST_LOG", "RUST_BACKTRACE", "COOKLANG_DEBUG"].iter().map(|s| s.to_string()).collect();
+    let mut stack = vec![format!("{repo}/src")];
+    let mut all = Vec::new();
+    while let Some(d) = stack.pop() {
+        if let Ok(rd) = std::fs::read_dir(&d) {
+            for e in rd.flatten() {
+                let p = e.path();
+                if p.is_dir() {
+                    stack.push(p.to_string_lossy().into_owned());
+                } else if p.extension().map(|x| x == "rs").unwrap_or(false) && p.file_name().map(|n| n != "verif_seam.rs").unwrap_or(true) {
+                    all.push(p.to_string_lossy().into_owned());
+                }
+            }
+        }
+    }
+    all.sort();
+    for f in all {
+        if let Ok(t) = std::fs::read_to_string(&f) {
+            let mut it = t.split('"');
+            it.next();
+            while let (Some(lit), Some(_)) = (it.next(), it.next()) {
+                let ok = lit.len() >= 3 && lit.len() <= 48 && lit.starts_with(|c: char| c.is_ascii_uppercase()) && lit.chars().all(|c| c.is_ascii_uppercase() || c.is_ascii_digit() || c == '_') && (lit.contains('_') || lit.len() >= 6);
+                if ok && env.len() < 64 {
+                    env.push(lit.to_string());
+                }
+            }
+        }
+    }
+    env.sort();
+    env.dedup();
+    Dict { aisle, recipe, units, env }
 }
